@@ -636,7 +636,10 @@ def guards(inst, st):
               and all(nn(o.duration) for m in inst.machines for o in m.outages)
               and all(nn(v) for v in inst.logistics.travel_times.values())
               and all(nn(o.duration) for t in inst.transports for o in t.outages))
-    return wf, shape, cons, cap, rest, nonneg
+    from jobshoplab.types.instance_config_types import BufferRoleConfig as _BR
+    out_ids = {b.id for b in inst.buffers if b.role == _BR.OUTPUT}
+    placed = all(len(m.prebuffer.store) == 0 for m in st.machines) and all(j.location not in out_ids for j in st.jobs)
+    return wf, shape, cons, cap, rest, placed, nonneg
 
 
 def conflict_free(offers, rnd, p=0.7):
